@@ -463,6 +463,38 @@ fn run_c13(ctx: &mut Ctx, rng: &mut Rng, thorough: bool) {
             }
         }
     }
+    // literal lengths that exceed 32 bits, in front of k = 0..5 content bytes: a length that wraps
+    // modulo 2^32 (or 2^64) to k would be accepted
+    for k in 0..6usize {
+        let content = &b"abcde"[..k];
+        for t in ["* 1 FETCH (RFC822 {{N}}\r\n{C})\r\n", "* 1 FETCH (BODY[TEXT] {{N}}\r\n{C} UID 7)\r\n", "* LIST () \"/\" {{N}}\r\n{C}\r\n"] {
+            for base in [1u128 << 32, 1u128 << 64, 10 * (1u128 << 32), 42949672960000u128] {
+                for d in 0..6u128 {
+                    for &pad in pads {
+                        let numeral = format!("{}{}", "0".repeat(pad), base + d);
+                        let input = t
+                            .replace("{N}", &numeral)
+                            .replace("{C}", std::str::from_utf8(content).unwrap())
+                            .into_bytes();
+                        let v = ctx.eval(&input, "c13-literal-overflow");
+                        ctx.log.nontrivial(&hex(&input));
+                        if v != "ERR" {
+                            ctx.fail(
+                                "literal-length",
+                                format!(
+                                    "literal length {} does not fit 32 bits but {} gives {}",
+                                    numeral,
+                                    show_bytes(&input),
+                                    clip(&v)
+                                ),
+                                &[&input],
+                            );
+                        }
+                    }
+                }
+            }
+        }
+    }
     // literal lengths: content present is "abc" (3 bytes)
     for t in LIT_TEMPLATES {
         let full = verdict(&subst(t, "3"));
